@@ -35,7 +35,8 @@ OBLIGATIONS = [
     "SkVerif.C10.one_table_per_level",
     "SkVerif.C10.update_predict_refuses_intervals_untouched",
 ]
-TRUSTED = ["hand-written model SkVerif/Model/Forecaster.lean + Series.lean of the forecaster base classes (shared with C03)",
+TRUSTED = ["hand-written model SkVerif/Model/Forecaster.lean + Series.lean + PredInt.lean of the forecaster base classes (shared with C03)",
+           "interval half-widths of real forecasters (z-score, sigma) are floats: compared between twin runs of the real code only; the exact interval probe (harness/probes.py) stands in for them in the correspondence",
            "pandas combine_first is modelled as right-biased union on labels with NaN filled from the older series (exercised by the correspondence)"]
 ASSUMPTIONS = ["integer time index; data arrive in time order (every batch ends at or after every label seen before) for the oracle clauses",
                "NaN in a batch counts as 'no observation' (combine_first keeps the older value)",
@@ -46,7 +47,9 @@ RULE = ("histories over {fit, update(update_params), predict, update_predict(cv|
 LEVEL_TEXT = ("Lean 4 theorems over the forecaster state-machine model: the remembered series after any sequence of updates is the later-wins union "
               "(lookup characterisation of combine_first, by induction over batches), fit;update(refit) is state-equal to a fresh fit on the union hence "
               "equal under every continuation, update without refit keeps fitted parameters and moves the cutoff, update_predict equals the iterated "
-              "single update+predict labelled by cutoffs and restores the cutoff; tied to the real base classes by differential correspondence on "
+              "single update+predict labelled by cutoffs and restores the cutoff; the prediction-interval layer (Model/PredInt.lean: return_pred_int / alpha through predict, "
+              "update_predict_single, update_predict, check_alpha, compute_pred_int) proves that update_predict_single returns the interval tables of update followed by predict "
+              "for every level argument; tied to the real base classes by differential correspondence on "
               "histories; each clause is also evaluated directly on the real code by twin runs.")
 LEVEL_NOTE = ("Trusted: Lean kernel; axioms propext/Classical.choice/Quot.sound; model faithfulness as exercised; harness + compat layer. "
               "Composite forecasters' own update logic (ensemble, pipeline, stacking, multiplexer) is covered index-only here and by C09.")
